@@ -171,13 +171,34 @@ def run(ctx, R, tier):
             nm = names_in(val)
             if msgvar in nm or (conn_param and conn_param in nm):
                 derived = True
-        ok = bool(snodes) and cfg.all_paths_pass(recv_nodes, lambda n: n in snodes, targets=dispatch)
+        # a store counts only when it is left normally (a store whose right-hand side raised has not happened)
+        ok = bool(snodes) and cfg.all_paths_cross(recv_nodes, lambda e: e.src in snodes and e.kind != "exc", targets=dispatch)
         why = "a dispatch site is reachable from the receive without storing current_context.%s: the method would see the value of an earlier request" % field
         if ok and not derived:
             ok = False
             why = "current_context.%s is never assigned from the received message or the connection" % field
         R.check(ok, "C12-R2", "handleRequest|%s" % field, "context field %s filled from the request before any dispatch" % field,
                 f.loc(stores[0][0]) if stores else f.loc(), why)
+
+    # correlation id: the id sent with the request is adopted exactly when the request carries one (flag), otherwise a fresh one is made
+    from .c03 import flag_fact, edge_has_fact
+    for qn in ("Pyro5.server.Daemon.handleRequest", "Pyro5.server.Daemon._handshake"):
+        g = ctx.fn(qn)
+        gcfg = ctx.cfg(g)
+        cstores = field_stores(ctx, g, "correlation_id")
+        from_req = [st for st, val in cstores if any(isinstance(x, ast.Attribute) and x.attr == "corr_id" for x in ast.walk(val))]
+        fresh = [st for st, val in cstores if st not in from_req]
+
+        def has_id(want):
+            def pred(atom, pol):
+                return pol is want and flag_fact(ctx, g, atom, "Pyro5.protocol.FLAGS_CORR_ID")
+            return pred
+        ok = len(from_req) == 1 and all(n.id in gcfg.live() and gcfg.guarded(n, lambda e: edge_has_fact(e, has_id(True))) for n in gcfg.nodes_for(from_req[0]))
+        okf = bool(fresh) and all(gcfg.guarded(n, lambda e: edge_has_fact(e, has_id(False))) for st in fresh for n in gcfg.nodes_for(st))
+        R.check(ok and okf, "C12-R2", "%s|correlation_id-adopted-iff-flagged" % g.name, "the request's correlation id is stored on the FLAGS_CORR_ID edge, a fresh one only on the other edge",
+                g.loc(from_req[0]) if from_req else g.loc(),
+                "the correlation id of the request is %s: the method would run under an id that is not the caller's" % (
+                    "not adopted on the FLAGS_CORR_ID edge (dead or unguarded store)" if not ok else "overwritten by a fresh id although the request carried one"))
 
     # ---------------------------------------------------------------- R3
     fg = p.fn("Pyro5.callcontext._CallContext.from_global")
@@ -276,6 +297,12 @@ def run(ctx, R, tier):
     ok = bool(rs_nodes) and all(any(cfg.dominates(s, n) for s in seq_nodes) for n in rs_nodes)
     R.check(ok, "C12-R5", "_pyroInvoke|after-sequence-check", "the store is dominated by the sequence check", f.loc(reply_stores[0][0]) if reply_stores else f.loc(),
             "annotations of a reply are exposed before its sequence number was checked")
+    # a call that gets no reply (oneway) must not leave the previous call's annotations visible: fresh dict before anything is sent
+    sends = [n for c in ctx.calls_to(f, "Pyro5.socketutil.SocketConnection.send") for n in ctx.node_of(f, c)]
+    resets = [n for st, v in stores if is_fresh_dict(v) for n in cfg.nodes_for(st)]
+    ok = bool(sends) and bool(resets) and all(any(cfg.dominates(r, sn) for r in resets) for sn in sends)
+    R.check(ok, "C12-R5", "_pyroInvoke|reset-before-send", "a fresh response_annotations dict is stored before the request is sent", f.loc(),
+            "the request is sent without first clearing current_context.response_annotations: after a oneway call (no reply) the caller still sees the annotations of the previous call's reply")
     exits = []
     live = cfg.live()
     after_recv = cfg.reachable(recv_nodes)
